@@ -28,3 +28,4 @@ def run(prog, rep):
     r_pair.run_vectors(prog, rep)
     from ..rules import r_safe as _rs
     _rs.run_stale_size(prog, rep)
+    r_flow.run_forward(prog, rep, which=('MultiTag',), mode='list:ndsize_t', rid='R-FORWARD-IDX', floor=4)
